@@ -43,7 +43,7 @@ def attrs(pel, name, data):
     """abstract attributes of a PEL file for the judge"""
     return dict(name=project.cp(name), kind='pel', sev=pel['uh']['sev'], flags=encode.b2i(pel['uh']['flags']),
                 eid=pel['ph']['eid'], plid=pel['ph']['plid'], bmc=pel['ph']['bmc'],
-                ref=_strip([x for x in pel['secs'] if x['kind'] == 'SRC'][0]['ascii']), size=len(data))
+                ref=_strip(([x for x in pel['secs'] if x['kind'] == 'SRC'] or [dict(ascii=[])])[0]['ascii']), size=len(data))
 
 
 def _strip(cps):
@@ -211,7 +211,9 @@ def list_entries(out):
         raise project.ShapeError('list output is not an object')
     res = []
     for k, v in doc.items():
-        res.append(dict(eid=project.numbytes(k, 4), src=project.cp(project.get(v, 'SRC')),
+        if not isinstance(v, dict):
+            raise project.ShapeError('list entry is not an object')
+        res.append(dict(eid=project.numbytes(k, 4), src=project.cp(v.get('SRC', '')),     # a log without an SRC has none
                         plid=project.numbytes(project.get(v, 'PLID'), 4),
                         creator=project._str(project.get(v, 'CreatorID')),
                         subsystem=project._str(project.get(v, 'Subsystem')),
